@@ -203,6 +203,15 @@ def _bound_roles(col, rule="C08.R2"):
                 other.append(f"{S.show(b, False)} in {S.show(r.value)[:120]}")
     col.add(rule, "Table._get_row_indices#bounds-only-compared-with-the-column", not other, sx.loc(sx.fn),
             "in a value range the bounds are used for nothing but the element-wise comparisons with the column", "; ".join(other))
+    # np.where(mask) is a 1-tuple of position arrays: the positions are its element 0
+    nw = 0
+    for r in rets:
+        for t in S.subterms(r.value):
+            if t[:1] == ("sub",) and S.is_call_of(t[1], ("attr", ("glob", "np"), "where")) and len(t[1][2]) == 1 and t[2][:1] == ("const",):
+                nw += 1
+                col.add(rule, f"Table._get_row_indices#positions-of-np.where:{nw}", t[2] == ("const", "0"), sx.loc(r),
+                        "the row positions of a mask are np.where(mask)[0]", S.show(t)[:80])
+    col.count("np_where_sites", nw)
     # one-sided ranges use the bound that is present
     for r in rets:
         cs = sx.conds(r.nid)
@@ -252,6 +261,20 @@ def _table_order(col, rule="C08.R3"):
             "without a count the matching rows are collected by one scan of the index column, in order", "")
     off = ("item", S.mcall(S.SELF, "_split_name_count_offset", sx.P(0)), 2)
     offset_ok = all(S.match(a, ("op", "+", S.ANY, off)) is not None or S.contains(a, lambda t: t == off) for a in S.alts(final.value))
+    for a in S.alts(final.value):
+        mo = S.match(a, ("op", S.V("o"), S.ANY, off))
+        if mo is not None and mo["o"] != "+":
+            offset_ok = False       # the parser already gave `<<k` a negative sign: the offset is added
+    # the occurrence lookups happen exactly when a count was given
+    cnt = ("item", S.mcall(S.SELF, "_split_name_count_offset", sx.P(0)), 1)
+    given, not_given = ("cmp", "is not", cnt, ("const", "None")), ("cmp", "is", cnt, ("const", "None"))
+    for ev, m in sx.calls_some(("call", ("attr", S.SELF, "_get_row_cache"), S.V("a"), S.V("k"))):
+        if len(m["a"]) >= 2 and m["a"][1] == cnt:
+            conds = sx.conds(ev.nid)
+            if given in conds or not_given in conds:
+                col.add(rule, f"Table._get_regexp_indices#occurrence-lookup-when-count-given:{S.show(m['a'][0], False)[:30]}", given in conds, sx.loc(ev),
+                        "`pattern::count` looks up that occurrence of the matching names exactly when a count was given (without one, every "
+                        "matching row is selected)", str([S.show(c) for c in conds]))
     col.add(rule, "Table._get_regexp_indices#offset-applied", offset_ok, sx.loc(final),
             "the `<<`/`>>` offset shifts every selected position", S.show(final.value)[-60:])
 
